@@ -894,6 +894,40 @@ def rule_sections(ctx, g: Grammar) -> None:
         ctx.chk.report("C19.sections (report only): load_from_config numbers sections by list position; the parsed `section_id` and `options` are not read")
 
 
+def rule_comment_token(ctx) -> None:
+    """C19.comment-token: the block-comment token matches every minimal `/* ... */` comment in full (whatever stars it contains) and
+    ends at the first terminator - otherwise statements between two comments are swallowed silently."""
+    chk = ctx.chk
+    g = parse_grammar(ctx) if "parse_grammar" in globals() else None
+    m = ctx.m(LEXER)
+    rx = None
+    for k in ctx.prog.classes.values():
+        if k.module is m and k.name == "BDLexer":
+            for fn in k.methods.get("COMMENT", []):
+                for d in fn.node.decorator_list:
+                    if isinstance(d, ast.Call) and d.args and isinstance(d.args[0], ast.Constant) and isinstance(d.args[0].value, str):
+                        rx = d.args[0].value
+    if rx is None:
+        raise AnalysisError("C19.comment-token: COMMENT token pattern not found")
+    alts = [a for a in regexlang.split_alternatives(rx) if a.lstrip("(").startswith("/\\*")]
+    if len(alts) != 1:
+        raise AnalysisError(f"C19.comment-token: block comment alternative not found in {rx!r}")
+    blk = alts[0]
+    lazy = "*?" in blk or "+?" in blk
+    ALPH = "/*a \n#"
+    try:
+        L = regexlang.Lang(blk.replace("*?", "*").replace("+?", "+"), "fullmatch", 0, ALPH)
+        M = regexlang.Lang(r"/\*([^*]|\*+[^*/])*\*+/", "fullmatch", 0, ALPH)
+    except regexlang.Unsupported as e:
+        raise AnalysisError(f"C19.comment-token: pattern outside the regex fragment: {e}")
+    n1, w1 = regexlang.included(M, L)
+    n2, w2 = regexlang.included(L, M)
+    stops = lazy or w2 is None
+    chk.decide(w1 is None and stops, "C19.comment-token", f"{LEXER}::BDLexer.COMMENT", f"every minimal block comment is matched in full and the match ends at the first `*/` ({n1 + n2} product states; {'lazy quantifier' if lazy else 'language equals the minimal comments'})",
+               (f"the comment {w1!r} is not matched by the token pattern {blk!r}: lexing continues to a later `*/` and the statements in between are dropped" if w1 is not None else f"the pattern also matches {w2!r}, which runs past the first terminator"),
+               "/\\*(.|\\s)*?\\*/", A.loc(LEXER, m.tree))
+
+
 def run(ctx) -> None:
     ctx.chk.explain("C19: operator dispatch of the BD expression evaluator checked against the language's operator table through the lexer's token regexes (automata), "
                     "definition-order shadowing of lexer patterns, precedence tuple vs C order, abstract interpretation of the grammar's semantic actions to the set of "
@@ -908,6 +942,9 @@ def run(ctx) -> None:
     ctx.rule(rule_refuse, g)
     ctx.rule(rule_operands, g)
     ctx.rule(rule_sections, g)
+    ctx.rule(rule_comment_token)
+    from . import c04 as _c04
+    ctx.rule(lambda c: c.borrow(_c04.rule_setters, "C04.jump-sp", "C19.jump-sp"))
     ctx.chk.assumptions = ["SLY matches lexer patterns in definition order and resolves conflicts with the precedence tuple as documented",
                            "not decided: source/extern resolution, keyblob option semantics, the binary content of the generated commands (C04)"]
 
